@@ -26,9 +26,9 @@ def sh(cmd, cwd=None, timeout=3600):
 
 patch = os.path.join(mdir, "patch.diff")
 meta_in = json.load(open(os.path.join(mdir, "meta.json")))
-demo = [f for f in os.listdir(mdir) if f.startswith("demo")]
+demo = sorted(f for f in os.listdir(mdir) if f.startswith("demo") and (f.endswith(".c") or f.endswith(".sh")))
 demo_src = os.path.join(mdir, demo[0])
-head = open(demo_src).read(3000)
+head = open(demo_src, errors="replace").read(3000)
 res = {"seed": sid, "property": meta_in.get("property"), "summary": meta_in.get("summary"), "needs": meta_in.get("needs")}
 
 # ---- confirmation in the scratch worktree (brought to /repo's current HEAD first) ----
